@@ -1,7 +1,7 @@
 """C02 — run queue hands each entry to exactly one taker: Chase-Lev skeleton + owner discipline."""
 from core import strip, is_field, key_str, order_ge, key_mentions
 from facts import AnalysisBroken
-from rules import (through_local, nodeset, callpred, field_of, ev, Unevaluable, forced_edges, atom_from, is_load_of,
+from rules import (field_load, through_local, nodeset, callpred, field_of, ev, Unevaluable, forced_edges, atom_from, is_load_of,
                    is_cas_on, is_full_fence, one, some, base_var)
 import stale
 
@@ -285,8 +285,8 @@ def check_push(ctx, P):
     else:
         lt = f.loads_of(D, "top")
         isTn = nodeset([l.node for l in lt])
-        isM = lambda n: n.k == "ImplicitCastExpr" and n.ck == "LValueToRValue" and strip(n).k == "MemberExpr" and strip(n).field == "size_minus_one"
-        isS = lambda n: n.k == "ImplicitCastExpr" and n.ck == "LValueToRValue" and strip(n).k == "MemberExpr" and strip(n).field == "size" and strip(n).rec == "wsd_circular_array"
+        isM = field_load("size_minus_one")
+        isS = field_load("size", "wsd_circular_array")
         bad = None
         for M in (3, 7):
             for T in (0, 2):
@@ -305,9 +305,8 @@ def check_push(ctx, P):
                 for pcall in puts:
                     a0 = strip(f.args(pcall)[0])
                     if a0.k == "DeclRefExpr" and a0.did:
-                        ds = [e for e in f.defs().get(a0.did, []) if e[0] in ("assign", "init") and e[2] is not None
-                              and any(m is g for m in e[2].walk())]
-                        if not ds:
+                        from rules import may_flow_from
+                        if not may_flow_from(f, a0, lambda m, g=g: m is g):
                             bad = bad or ("the slot is written into `%s`, which never holds the grown array" % a0.name, pcall, None)
         if bad:
             o.fail(bad[0], site=bad[1], witness=bad[2], construct="grow discipline")
@@ -379,7 +378,7 @@ def check_grow_copy(ctx, P):
     if len(cr) != 1:
         bad = "shape"
     else:
-        isls = lambda n: n.k == "ImplicitCastExpr" and n.ck == "LValueToRValue" and strip(n).k == "MemberExpr" and strip(n).field == "log_size"
+        isls = field_load("log_size")
         for S, E in ((0, 0), (3, 7), (250, 256), (5, 6), (2 ** 40, 2 ** 40 + 3)):
             from rules import is_param_load
             base = atom_from([(is_param_load(g, "start"), S), (is_param_load(g, "end"), E), (isls, 8),
@@ -411,7 +410,7 @@ def check_grow_copy(ctx, P):
     o = ctx.ob("array.index", "", "slot i of an array lives at data[i & size_minus_one]; create sets size = 2^log_size and size_minus_one = size - 1",
                "get and put must agree on the slot of an index, for negative-free 64-bit indices beyond the capacity (wrap)")
     bad = None
-    ism = lambda n: n.k == "ImplicitCastExpr" and n.ck == "LValueToRValue" and strip(n).k == "MemberExpr" and strip(n).field == "size_minus_one"
+    ism = field_load("size_minus_one")
     for name in (GET, PUT):
         f = P.fn(name)
         subs = f.all(k="ArraySubscriptExpr")
@@ -434,7 +433,7 @@ def check_grow_copy(ctx, P):
             bad = bad or "create: %s not stored once" % fld
             continue
         for k in (3, 8, 9):
-            szl = lambda n: n.k == "ImplicitCastExpr" and n.ck == "LValueToRValue" and strip(n).k == "MemberExpr" and strip(n).field == "size"
+            szl = field_load("size")
             try:
                 v = ev(c, st[0].value, atom_from([(is_param_load(c, "log_size"), k), (szl, 1 << k)]))
             except Unevaluable:
@@ -511,7 +510,7 @@ def check_owner(ctx, P):
     if not sub:
         raise AnalysisBroken("load_balance: remote queue subscript not found")
     idx = sub[0].kids[1]
-    is_id = lambda n: n.k == "ImplicitCastExpr" and n.ck == "LValueToRValue" and strip(n).k == "MemberExpr" and strip(n).field == "id"
+    is_id = field_load("id")
     is_n = lambda n: n.k == "ImplicitCastExpr" and n.ck == "LValueToRValue" and strip(n).k == "DeclRefExpr" and strip(n).name == "fiber_scheduler_num_threads"
     bad = None
     cases = 0
